@@ -52,14 +52,20 @@ def rule_loop(ctx: Ctx, qual: str) -> None:
     ctx.ob("C06.INDEX", R, dd[0][0] if dd else fn, f"{qual}: dsp = {canon(dd[0][1]) if dd else '?'}", len(dd) == 1 and canon(dd[0][1]) == want, expected=want, detail="the plane of the current disparity is (disparity - first disparity) * subpix: any other conversion reads the cost triple of another disparity")
     inv = boolform(ast.parse(f"({mask}[{rv}, {cvr}] & cst.PANDORA_MSK_PIXEL_INVALID) == 0", mode="eval").body)
     notnan = B("not", boolform(ast.parse(f"np.isnan({cv}[{rv}, {cvr}, dsp])", mode="eval").body))
-    interior = boolform(ast.parse(f"({disp}[{rv}, {cvr}] != {dmin}) and ({disp}[{rv}, {cvr}] != {dmax})", mode="eval").body)
-    # invariants: d_min <= disp <= d_max
-    nonneg = [poly(ast.parse(f"{disp}[{rv}, {cvr}] - {dmin}", mode="eval").body).sign_normalised()[0].text(), poly(ast.parse(f"{dmax} - {disp}[{rv}, {cvr}]", mode="eval").body).sign_normalised()[0].text()]
-    # careful: sign_normalised may flip; recompute allowed signs per polynomial
+    # "the sample has a neighbour on both sides" is a statement about the sample *index* used for the accesses
+    # cv[.., dsp - 1] / cv[.., dsp + 1]: 0 < dsp < (number of planes) - 1.  A guard on the disparity *value*
+    # (disp != d_min and disp != d_max) agrees with it only for disparities that lie on the sampling grid; a filtered
+    # or already refined disparity inside the first sample interval has index 0 and would read cv[.., -1].
+    shp = [s for s in walk_no_nested(fn) if isinstance(s, ast.Assign) and isinstance(s.targets[0], ast.Tuple) and canon(s.value) == f"{cv}.shape" and len(s.targets[0].elts) == 3]
+    nplanes = canon(shp[0].targets[0].elts[2]) if shp else f"{cv}.shape[2]"
+    if nplanes == "_":
+        nplanes = f"{cv}.shape[2]"
+    interior = boolform(ast.parse(f"(dsp != 0) and (dsp != {nplanes} - 1)", mode="eval").body)
+    # invariants: 0 <= dsp <= number of planes - 1
     assume: Dict[str, int] = {}
-    for expr in (f"{disp}[{rv}, {cvr}] - {dmin}", f"{dmax} - {disp}[{rv}, {cvr}]"):
-        q, s = poly(ast.parse(expr, mode="eval").body).sign_normalised()
-        assume[q.text()] = s  # q * s >= 0
+    for expr in ("dsp", f"{nplanes} - 1 - dsp"):
+        q, sgn0 = poly(ast.parse(expr, mode="eval").body).sign_normalised()
+        assume[q.text()] = sgn0  # q * sgn0 >= 0
 
     def holds(a: B, b: B) -> Optional[dict]:
         for sg, v in _assignments([a, b]):
@@ -94,7 +100,7 @@ def rule_loop(ctx: Ctx, qual: str) -> None:
             ctx.ob("C06.LOOP-GUARDS", R, st, f"{qual}: every valid pixel on an interval end gets bit 3", d2 is None, detail=f"a pixel on an interval end is left without bit 3: {d2}")
         else:
             d1 = holds(g, interior)
-            ctx.ob("C06.LOOP-GUARDS", R, st, f"{qual}: `{src(st)[:70]}` only when the sample is strictly inside the interval", d1 is None, detail=f"on an interval end dsp-1 / dsp+1 index outside the cost volume (numba does not bounds-check) and the refined disparity can leave the interval: {d1}")
+            ctx.ob("C06.LOOP-GUARDS", R, st, f"{qual}: `{src(st)[:70]}` only when the sample is strictly inside the interval", d1 is None, detail=f"the guard does not imply 0 < dsp < planes - 1 for the index that is used: on the first / last sample dsp-1 / dsp+1 index outside the cost volume (numba does not bounds-check, -1 wraps around to the last plane) and the refined disparity can leave the interval; a test on the disparity value instead of the index misses off-grid disparities (after a filter or an earlier refinement): {d1}")
             d2 = holds(B("and", [inv, notnan, interior]), g)
             ctx.ob("C06.LOOP-GUARDS", R, st, f"{qual}: every valid interior pixel reaches `{src(st)[:50]}`", d2 is None, detail=f"{d2}")
     # the method call
@@ -242,12 +248,12 @@ SPEC = PropSpec(
     rule_text="instances: every store to disp/mask in the two loops (guard formulas), the method call, every return and division of the two refinement methods, the call site in subpixel_refinement",
     run=run,
     not_decided=["|shift| <= 0.5/subpix", "the refined value equals the V-fit / parabola optimum of the three costs", "the interpolated coefficient is never worse than the sample's cost", "the refined disparity stays inside the pixel's interval (follows numerically from the half-sample bound and the interior guard)"],
-    trusted=["numba error model: ZeroDivisionError on float division by zero inside njit", "d_min <= disparity <= d_max for every valid pixel entering the step"],
+    trusted=["numba error model: ZeroDivisionError on float division by zero inside njit", "0 <= sample index <= number of planes - 1 for every valid pixel entering the step (d_min <= disparity <= d_max)"],
 )
 
 MUTANTS = [
-    {"id": "remove-invalid-guard", "file": R, "old": "                if (mask[row, col] & cst.PANDORA_MSK_PIXEL_INVALID) != 0:\n                    itp_coeff[row, col] = np.nan\n                else:\n                    # conversion to numpy indexing\n                    dsp = int((disp[row, col] - d_min) * subpixel)\n                    itp_coeff[row, col] = cv[row, col, dsp]\n                    if not np.isnan(cv[row, col, dsp]):\n                        if (disp[row, col] != d_min) and (disp[row, col] != d_max):\n                            sub_disp, sub_cost, valid = method(", "new": "                if (mask[row, col] & cst.PANDORA_MSK_PIXEL_OCCLUSION) != 0:\n                    itp_coeff[row, col] = np.nan\n                else:\n                    # conversion to numpy indexing\n                    dsp = int((disp[row, col] - d_min) * subpixel)\n                    itp_coeff[row, col] = cv[row, col, dsp]\n                    if not np.isnan(cv[row, col, dsp]):\n                        if (disp[row, col] != d_min) and (disp[row, col] != d_max):\n                            sub_disp, sub_cost, valid = method("},
-    {"id": "interior-only-min-side", "file": R, "old": "                        if (disp[row, col] != d_min) and (disp[row, col] != d_max):\n                            sub_disp, sub_cost, valid = method(", "new": "                        if disp[row, col] != d_min:\n                            sub_disp, sub_cost, valid = method("},
+    {"id": "remove-invalid-guard", "file": R, "old": "                if (mask[row, col] & cst.PANDORA_MSK_PIXEL_INVALID) != 0:\n                    itp_coeff[row, col] = np.nan\n                else:\n                    # conversion to numpy indexing\n                    dsp = int((disp[row, col] - d_min) * subpixel)\n                    itp_coeff[row, col] = cv[row, col, dsp]\n                    if not np.isnan(cv[row, col, dsp]):\n                        # The sample must have a neighbour on both sides: test its index, not the disparity value\n                        # (a filtered or already refined disparity is not on the sampling grid)\n                        if (dsp != 0) and (dsp != n_disp - 1):\n                            sub_disp, sub_cost, valid = method(", "new": "                if (mask[row, col] & cst.PANDORA_MSK_PIXEL_OCCLUSION) != 0:\n                    itp_coeff[row, col] = np.nan\n                else:\n                    # conversion to numpy indexing\n                    dsp = int((disp[row, col] - d_min) * subpixel)\n                    itp_coeff[row, col] = cv[row, col, dsp]\n                    if not np.isnan(cv[row, col, dsp]):\n                        # The sample must have a neighbour on both sides: test its index, not the disparity value\n                        # (a filtered or already refined disparity is not on the sampling grid)\n                        if (dsp != 0) and (dsp != n_disp - 1):\n                            sub_disp, sub_cost, valid = method("},
+    {"id": "interior-only-min-side", "file": R, "old": "                        if (dsp != 0) and (dsp != n_disp - 1):\n", "new": "                        if dsp != 0:\n"},
     {"id": "swap-neighbours", "file": R, "old": "                                    cv[row, col, dsp - 1],\n                                    cv[row, col, dsp],\n                                    cv[row, col, dsp + 1],\n                                ],  # type: ignore\n                                disp[row, col],\n                                measure,  # type: ignore\n                            )\n\n                            disp[row, col] = disp[row, col] + (sub_disp / subpixel)\n                            itp_coeff[row, col] = sub_cost", "new": "                                    cv[row, col, dsp + 1],\n                                    cv[row, col, dsp],\n                                    cv[row, col, dsp - 1],\n                                ],  # type: ignore\n                                disp[row, col],\n                                measure,  # type: ignore\n                            )\n\n                            disp[row, col] = disp[row, col] + (sub_disp / subpixel)\n                            itp_coeff[row, col] = sub_cost"},
     {"id": "shift-times-subpix", "file": R, "old": "                            disp[row, col] = disp[row, col] + (sub_disp / subpixel)\n                            itp_coeff[row, col] = sub_cost", "new": "                            disp[row, col] = disp[row, col] + (sub_disp * subpixel)\n                            itp_coeff[row, col] = sub_cost"},
     {"id": "vfit-returns-bit4", "file": VF, "old": "        if (np.isnan(cost[0])) or (np.isnan(cost[2])):\n            # Information: calculations stopped at the pixel step, sub-pixel interpolation did not succeed\n            return 0, cost[1], cst.PANDORA_MSK_PIXEL_STOPPED_INTERPOLATION", "new": "        if (np.isnan(cost[0])) or (np.isnan(cost[2])):\n            # Information: calculations stopped at the pixel step, sub-pixel interpolation did not succeed\n            return 0, cost[1], cst.PANDORA_MSK_PIXEL_FILLED_OCCLUSION"},
@@ -255,10 +261,11 @@ MUTANTS = [
     {"id": "quadratic-remove-flat-guard", "file": QD, "old": "        if alpha == 0:\n            return 0, cost[1], 0\n", "new": ""},
     {"id": "vfit-nonstrict-right", "file": VF, "old": "(inverse * cost[1] > inverse * cost[0]) or (inverse * cost[1] > inverse * cost[2])", "new": "(inverse * cost[1] > inverse * cost[0]) or (inverse * cost[1] >= inverse * cost[2])"},
     {"id": "quadratic-min-form", "file": QD, "old": "(inverse * cost[1] > inverse * cost[0]) or (inverse * cost[1] > inverse * cost[2])", "new": "inverse * cost[1] > inverse * min(cost[0], cost[2])"},
-    {"id": "dsp-without-subpix", "file": R, "old": "                    dsp = int((disp[row, col] - d_min) * subpixel)\n                    itp_coeff[row, col] = cv[row, col, dsp]\n                    if not np.isnan(cv[row, col, dsp]):\n                        if (disp[row, col] != d_min) and (disp[row, col] != d_max):\n                            sub_disp, sub_cost, valid = method(", "new": "                    dsp = int(disp[row, col] - d_min)\n                    itp_coeff[row, col] = cv[row, col, dsp]\n                    if not np.isnan(cv[row, col, dsp]):\n                        if (disp[row, col] != d_min) and (disp[row, col] != d_max):\n                            sub_disp, sub_cost, valid = method("},
+    {"id": "dsp-without-subpix", "file": R, "old": "                    dsp = int((disp[row, col] - d_min) * subpixel)\n                    itp_coeff[row, col] = cv[row, col, dsp]\n                    if not np.isnan(cv[row, col, dsp]):\n                        # The sample must have a neighbour on both sides: test its index, not the disparity value\n                        # (a filtered or already refined disparity is not on the sampling grid)\n                        if (dsp != 0) and (dsp != n_disp - 1):\n                            sub_disp, sub_cost, valid = method(", "new": "                    dsp = int(disp[row, col] - d_min)\n                    itp_coeff[row, col] = cv[row, col, dsp]\n                    if not np.isnan(cv[row, col, dsp]):\n                        # The sample must have a neighbour on both sides: test its index, not the disparity value\n                        # (a filtered or already refined disparity is not on the sampling grid)\n                        if (dsp != 0) and (dsp != n_disp - 1):\n                            sub_disp, sub_cost, valid = method("},
     {"id": "mask-add-valid", "file": R, "old": "                            mask[row, col] |= valid\n                        else:\n                            # If Information: calculations stopped at the pixel step, sub-pixel interpolation did\n                            # not succeed\n                            mask[row, col] |= cst.PANDORA_MSK_PIXEL_STOPPED_INTERPOLATION\n\n        return itp_coeff, disp, mask\n\n    @staticmethod\n    @abstractmethod", "new": "                            mask[row, col] += valid\n                        else:\n                            # If Information: calculations stopped at the pixel step, sub-pixel interpolation did\n                            # not succeed\n                            mask[row, col] |= cst.PANDORA_MSK_PIXEL_STOPPED_INTERPOLATION\n\n        return itp_coeff, disp, mask\n\n    @staticmethod\n    @abstractmethod"},
     {"id": "dmax-from-attrs-swapped", "file": R, "old": '        d_min = cv.coords["disp"].data[0]\n        d_max = cv.coords["disp"].data[-1]\n        subpixel = cv.attrs["subpixel"]\n        measure = cv.attrs["type_measure"]\n\n        # This silences', "new": '        d_min = cv.coords["disp"].data[0]\n        d_max = cv.coords["disp"].data[-2]\n        subpixel = cv.attrs["subpixel"]\n        measure = cv.attrs["type_measure"]\n\n        # This silences'},
-    {"id": "eq-interior-strict-inequalities", "kind": "equiv", "file": R, "old": "                        if (disp[row, col] != d_min) and (disp[row, col] != d_max):\n                            sub_disp, sub_cost, valid = method(", "new": "                        if d_min < disp[row, col] < d_max:\n                            sub_disp, sub_cost, valid = method("},
+    {"id": "eq-interior-strict-inequalities", "kind": "equiv", "file": R, "old": "                        if (dsp != 0) and (dsp != n_disp - 1):\n", "new": "                        if 0 < dsp < n_disp - 1:\n"},
+    {"id": "interior-tested-on-the-disparity-value", "file": R, "old": "                        if (dsp != 0) and (dsp != n_disp - 1):\n", "new": "                        if (disp[row, col] != d_min) and (disp[row, col] != d_max):\n"},
     {"id": "eq-extremum-de-morgan", "kind": "equiv", "file": VF, "old": "if (inverse * cost[1] > inverse * cost[0]) or (inverse * cost[1] > inverse * cost[2]):", "new": "if not ((inverse * cost[1] <= inverse * cost[0]) and (inverse * cost[2] >= inverse * cost[1])):"},
     {"id": "eq-rename-inverse-use", "kind": "equiv", "file": QD, "old": "        # Solve the system: col = alpha * row ** 2 + beta * row + gamma\n", "new": "        # Solve the system\n"},
 ]
